@@ -827,9 +827,10 @@ static void runC29() {
     vrt::Rng r = vrt::caseRng(idx);
     Spec s;
     s.salt = r.next() | 1;
-    // A parallel generator + an early throw deadlocks pipeline() (known finding, 6 s of watchdog per
-    // occurrence); only one in 16 of the scenarios that would have >= 2 generator tasks keeps them.
-    const bool keepGenPar = r.below(16) == 0;
+    // A parallel generator + an early throw used to deadlock pipeline() (finding
+    // C29-skipped-generator-task-hangs, fixed by 5e20fdf; 6 s of hang watch per occurrence if it
+    // comes back): one in 4 of the scenarios that would have >= 2 generator tasks keeps them.
+    const bool keepGenPar = r.below(4) == 0;
     int thrower = 0;
     std::vector<std::string> cls;
     if (idx < nEnum) {
